@@ -458,3 +458,96 @@ REG.step_lemma("from_text_label_separator", target="dns.name.from_text", loop=0,
                ensures=["len(labels) == len(old_labels) + 1", "labels[len(labels) - 1] == old_label", "label == b''", "not escaping",
                         "all(labels[k] == old_labels[k] for k in range(len(old_labels)))"],
                props=["C01"], note="an unescaped dot ends a non-empty label and starts an empty one")
+
+
+# ----------------------------------------------------------------------------- C06: hash is a function of the lowered labels
+import z3 as _z3  # noqa: E402
+from pyvc import sym as _S  # noqa: E402
+from pyvc.sym import SInt as _SInt, to_z3 as _to_z3  # noqa: E402
+
+# hfold(h0, s, k): the running hash after folding the first k octets of s into h0 (h += (h << 3) + c, i.e. h = 9h + c)
+_HFOLD = _z3.Function("hfold", _S.IntS, _S.SeqI, _S.IntS, _S.IntS)
+# nhash(labels, i): the hash after the first i labels, each folded in lower case
+_NHASH = _z3.Function("nhash", _z3.ArraySort(_S.IntS, _S.SeqI), _S.IntS, _S.IntS)
+
+
+def _lower_pointwise(I, s, k):
+    """bytes.lower() is ASCII lower-casing, octet by octet (A-lib), stated at the position that is used"""
+    from pyvc import models as M
+
+    if _z3.is_app(s) and s.decl().eq(M.LOWER):
+        x = s.arg(0)
+        I.path.assume(_z3.Implies(_z3.And(k >= 0, k < _z3.Length(x)),
+                                  s[k] == _z3.If(_z3.And(x[k] >= 65, x[k] <= 90), x[k] + 32, x[k])))
+
+
+def _hfold_smt(I, h0, s, k):
+    from pyvc import models as M
+
+    hz, sz, kz = _to_z3(h0), M.as_seq(I, s), _to_z3(k)
+    t = _HFOLD(hz, sz, kz)
+    I.path.assume(t == _z3.If(kz <= 0, hz, 9 * _HFOLD(hz, sz, kz - 1) + sz[kz - 1]))
+    _lower_pointwise(I, sz, kz - 1)
+    return _SInt(t)
+
+
+def _hfold_native(h0, s, k):
+    h = h0
+    for c in bytes(s)[:k]:
+        h += (h << 3) + c
+    return h
+
+
+def _nhash_smt(I, labels, i):
+    from pyvc import models as M
+
+    if not isinstance(labels, _S.SSeq) or _S.concrete_of(_to_z3(labels.off)) != 0:
+        raise _S.Unsupported("nhash over a sliced label sequence")
+    iz = _to_z3(i)
+    arr = labels.arr
+    t = _NHASH(arr, iz)
+    prev = _z3.Select(arr, iz - 1)
+    low = M.lower_of(I, prev)
+    step = _HFOLD(_NHASH(arr, iz - 1), low, _z3.Length(low))
+    I.path.assume(t == _z3.If(iz <= 0, 0, step))
+    return _SInt(t)
+
+
+def _nhash_native(labels, i):
+    h = 0
+    for lab in list(labels)[:i]:
+        h = _hfold_native(h, bytes(lab).lower(), len(lab))
+    return h
+
+
+REG.spec("hfold", _hfold_smt, _hfold_native, "running hash h = 9h + c over the first k octets of s, starting from h0")
+REG.spec("nhash", _nhash_smt, _nhash_native, "name hash after the first i labels, each folded in ASCII lower case")
+
+REG.contract(
+    "dns.name.Name.__hash__",
+    params={"self": NAME},
+    raises=[],
+    returns=T.int,
+    loops={
+        0: loop(index="i", invariant=["h == nhash(self.labels, i)"]),
+        1: loop(index="k", invariant=["h == hfold(nhash(self.labels, i), lower(label), k)", "label == self.labels[i]"]),
+    },
+    ensures=["result == nhash(self.labels, len(self.labels))"],
+    props=["C06"],
+    note="Name.__hash__ is the fold h = 9h + c over the ASCII-lowered octets of the labels: a function of the lower-cased labels only",
+)
+
+REG.lemma(
+    "name_hash_respects_equality_step",
+    params={"a": NAME, "b": NAME, "i": T.int},
+    hyps=[
+        "0 <= i and i < len(a.labels) and len(a.labels) == len(b.labels)",
+        "nhash(a.labels, i) == nhash(b.labels, i)",
+        "lower(a.labels[i]) == lower(b.labels[i])",
+    ],
+    goals=["nhash(a.labels, i + 1) == nhash(b.labels, i + 1)"],
+    props=["C06"],
+    note="induction step of 'names that are equal (same labels up to ASCII case, lemma name_eq_iff_case_insensitive_labels) "
+         "hash equally': with nhash(.,0) = 0 on both sides, induction on i (the induction principle itself is the one "
+         "unchecked step) gives equal results of __hash__ by its contract",
+)
